@@ -201,14 +201,16 @@ func (s *Sym) String() string { return s.K }
 
 // FA is the per-function analysis context.
 type FA struct {
-	P      *Prog
-	Fn     *ssa.Function
-	ms     *ModSets
-	syms   map[ssa.Value]*Sym
-	vers   map[locClass]*verInfo
-	local  map[*ssa.Alloc]bool // non-escaping allocs
-	idx    map[ssa.Instruction]int
-	inProg map[ssa.Value]bool
+	P       *Prog
+	Fn      *ssa.Function
+	ovfSafe map[*ssa.BinOp]bool
+	ovfBusy map[*ssa.BinOp]bool
+	ms      *ModSets
+	syms    map[ssa.Value]*Sym
+	vers    map[locClass]*verInfo
+	local   map[*ssa.Alloc]bool // non-escaping allocs
+	idx     map[ssa.Instruction]int
+	inProg  map[ssa.Value]bool
 }
 
 var faCache = map[*ssa.Function]*FA{}
@@ -966,12 +968,20 @@ func (fa *FA) linSym(s *Sym, mod int) *Lin {
 			return linAtom(s)
 		}
 		switch s.Aux {
-		case "+":
-			return fa.linSym(s.Args[0], mod).Add(fa.linSym(s.Args[1], mod))
-		case "-":
-			return fa.linSym(s.Args[0], mod).Sub(fa.linSym(s.Args[1], mod))
+		case "+", "-":
+			a, b := fa.linSym(s.Args[0], mod), fa.linSym(s.Args[1], mod)
+			if mod == 0 && !fa.signedOpSafe(s, a, b) {
+				return linAtom(s) // the 64-bit signed operation may wrap: its result is an unknown
+			}
+			if s.Aux == "+" {
+				return a.Add(b)
+			}
+			return a.Sub(b)
 		case "*":
 			a, b := fa.linSym(s.Args[0], mod), fa.linSym(s.Args[1], mod)
+			if mod == 0 && !fa.signedOpSafe(s, a, b) {
+				return linAtom(s)
+			}
 			if c, ok := a.IsConst(); ok {
 				return b.Scale(c)
 			}
@@ -1340,4 +1350,120 @@ func (fa *FA) memValueAtEnd(as *Sym, c locClass, b *ssa.BasicBlock, t types.Type
 		}
 	}
 	return &Sym{Op: "ld", K: fmt.Sprintf("ld(%s)@%d", as.K, ver), Args: []*Sym{as}, T: t, Aux: string(c)}
+}
+
+// ---- signed 64-bit overflow ------------------------------------------------------------------------------------
+//
+// int64/int arithmetic is interpreted as integer arithmetic only when it cannot wrap. Values of type int, lengths,
+// capacities and narrower integers are assumed to be below 2^44 in magnitude (they count or index memory); values
+// whose type is int64 or uint64 (file offsets taken from the wire) are arbitrary. An operation involving such a
+// value is interpreted only if the facts valid at the operation bound it: for a+b, no overflow above needs
+// a<=0 or b<=0 or both <= 2^44; no overflow below needs a>=0 or b>=0 or both >= -2^44.
+
+const ovfBound = int64(1) << 44
+
+func wideAtom(a *Sym) bool {
+	if a.Op == "len" || a.Op == "cap" {
+		return false
+	}
+	if b, ok := a.T.Underlying().(*types.Basic); ok {
+		return b.Kind() == types.Int64 || b.Kind() == types.Uint64
+	}
+	return false
+}
+
+func linHasWide(l *Lin) bool {
+	for _, a := range l.Atoms {
+		if wideAtom(a) {
+			return true
+		}
+	}
+	return false
+}
+
+func (fa *FA) signedOpSafe(s *Sym, a, b *Lin) bool {
+	if !linHasWide(a) && !linHasWide(b) {
+		return true
+	}
+	bin, ok := s.V.(*ssa.BinOp)
+	if !ok {
+		return false
+	}
+	if fa.ovfSafe == nil {
+		fa.ovfSafe = map[*ssa.BinOp]bool{}
+		fa.ovfBusy = map[*ssa.BinOp]bool{}
+	}
+	if r, ok := fa.ovfSafe[bin]; ok {
+		return r
+	}
+	if fa.ovfBusy[bin] {
+		return false
+	}
+	fa.ovfBusy[bin] = true
+	defer delete(fa.ovfBusy, bin)
+	facts := fa.FactsAt(bin, a, b)
+	// assumed magnitudes of memory-sized quantities
+	lins := []*Lin{a, b}
+	for _, f := range facts {
+		lins = append(lins, f.L)
+	}
+	seenAt := map[string]bool{}
+	for _, l := range lins {
+		for k, at := range l.Atoms {
+			if seenAt[k] {
+				continue
+			}
+			seenAt[k] = true
+			if at.Op == "len" || at.Op == "cap" {
+				facts = append(facts, le(linAtom(at), linConst(int64(1)<<40), "assumed: lengths are below 2^40"))
+			} else if bits, signed, ok := intBits(at.T); ok && !wideAtom(at) {
+				if bits <= 32 {
+					if signed {
+						facts = append(facts, le(linAtom(at), linConst(int64(1)<<31), "type range"), le(linConst(-(int64(1)<<31)), linAtom(at), "type range"))
+					} else {
+						facts = append(facts, le(linAtom(at), linConst(int64(1)<<32), "type range"), le(linConst(0), linAtom(at), "type range"))
+					}
+				} else {
+					facts = append(facts, le(linAtom(at), linConst(ovfBound), "assumed: int values are below 2^44"), le(linConst(-ovfBound), linAtom(at), "assumed: int values are above -2^44"))
+				}
+			}
+		}
+	}
+	leC := func(l *Lin, c int64) bool {
+		return Entails(facts, l.Sub(linConst(c))) || fa.entailsPhiSplit(bin, facts, l, linConst(c), 2)
+	}
+	geC := func(l *Lin, c int64) bool {
+		return Entails(facts, linConst(c).Sub(l)) || fa.entailsPhiSplit(bin, facts, linConst(c), l, 2)
+	}
+	res := false
+	switch s.Aux {
+	case "+", "-":
+		y := b
+		if s.Aux == "-" {
+			y = b.Scale(-1)
+		}
+		above := leC(a, 0) || leC(y, 0) || (leC(a, ovfBound) && leC(y, ovfBound))
+		below := geC(a, 0) || geC(y, 0) || (geC(a, -ovfBound) && geC(y, -ovfBound))
+		res = above && below
+	case "*":
+		x, c := a, int64(0)
+		if k, ok := a.IsConst(); ok {
+			x, c = b, k
+		} else if k, ok := b.IsConst(); ok {
+			c = k
+		} else {
+			res = false
+			break
+		}
+		if c < 0 {
+			c = -c
+		}
+		if c == 0 {
+			res = true
+		} else if c <= 1<<16 {
+			res = leC(x, ovfBound/c) && geC(x, -ovfBound/c)
+		}
+	}
+	fa.ovfSafe[bin] = res
+	return res
 }
